@@ -231,8 +231,16 @@ func legalTuples(tr *Trace) map[int]map[tuple]string {
 	for vb, segs := range tr.Segs {
 		m := map[tuple]string{}
 		out[vb] = m
+		// resume tuples: what the store held before the session, all-zero (no checkpoint, earliest),
+		// or - auto-reset latest without any checkpoint - (current branch uuid, s, s, s)
+		m[tuple{0, 0, 0, 0}] = "resume"
+		if ps, ok := tr.Spec.PreStore[vb]; ok {
+			m[tuple{ps[0], ps[1], ps[2], ps[3]}] = "resume"
+		}
 		for _, sg := range segs {
-			m[tuple{sg.ReqUUID, sg.Start, sg.SnapS, sg.SnapE}] = "resume"
+			if tr.Spec.AutoReset == "latest" && len(tr.Spec.PreStore) == 0 && sg.Start == sg.SnapS && sg.Start == sg.SnapE && sg.ReplySt == 0 && sg.ReqUUID == sg.ReplyUUID {
+				m[tuple{sg.ReqUUID, sg.Start, sg.SnapS, sg.SnapE}] = "resume"
+			}
 			if sg.ReplySt != 0 {
 				continue
 			}
@@ -287,6 +295,13 @@ func OracleTuples(tr *Trace) []Finding {
 		case "sim.xattrwrite":
 			if vb, t, ok := decodeXattrWrite(r.S); ok {
 				check("stored", vb, t, r.T)
+			}
+		}
+	}
+	for vb, segs := range tr.Segs {
+		for _, sg := range segs {
+			if !sg.Rollback {
+				check("requested", vb, tuple{sg.ReqUUID, sg.Start, sg.SnapS, sg.SnapE}, sg.ReqT)
 			}
 		}
 	}
